@@ -30,7 +30,7 @@ Definition eval (op : Z) (a : list float) : option (list float) :=
   | 5, [cx;cy;ro;ri;st;sw] =>
       let s := mkCircleSegment (mkPoint cx cy) ro ri st sw in
       Some ([cseg_area s; cseg_perimeter s] ++ rect_out (cseg_bounding_box s))
-  (* the model is the required behaviour (angle reduced relative to start_angle) *)
+  (* the required behaviour (angle reduced relative to start_angle); 106 is the pinned code *)
   | 6, [cx;cy;ro;ri;st;sw;x;y] =>
       Some [z2f (cseg_winding (mkCircleSegment (mkPoint cx cy) ro ri st sw) (mkPoint x y))]
   | 7, [a;b;c;d;e;f] =>
@@ -55,7 +55,7 @@ Definition eval (op : Z) (a : list float) : option (list float) :=
       Some (tri_area t :: rect_out (tri_bounding_box t))
   | 15, [ax;ay;bx;by_;cx;cy] =>
       Some [tri_perimeter (mkTriangle (mkPoint ax ay) (mkPoint bx by_) (mkPoint cx cy))]
-  (* the model is the required behaviour (zero-area triangles contain nothing) *)
+  (* the required behaviour (zero-area triangles contain nothing); 116 is the pinned code *)
   | 16, [ax;ay;bx;by_;cx;cy;x;y] =>
       Some [z2f (tri_winding (mkTriangle (mkPoint ax ay) (mkPoint bx by_) (mkPoint cx cy)) (mkPoint x y))]
   | 17, [x0;y0;x1;y1] =>
@@ -70,12 +70,20 @@ Definition eval (op : Z) (a : list float) : option (list float) :=
   | 22, [x0;y0;x1;y1;x;y] =>
       let r := mkRect x0 y0 x1 y1 in
       Some ([z2f (rect_winding r (mkPoint x y)); rect_area r; rect_perimeter r] ++ rect_out (rect_bounding_box r))
+  (* the same four queries for the pinned code (the harness detects which variant it runs against) *)
+  | 106, [cx;cy;ro;ri;st;sw;x;y] =>
+      Some [z2f (cseg_winding_pinned (mkCircleSegment (mkPoint cx cy) ro ri st sw) (mkPoint x y))]
+  | 111, [a;b;c;d;e;f;acc] =>
+      Some (opt_out (ellipse_perimeter_pinned FUEL (ellipse_from_affine (mkAffine a b c d e f)) acc))
+  | 113, [acc;x;y] => Some (opt_out (agm_elliptic_perimeter_pinned FUEL acc (mkVec2 x y)))
+  | 116, [ax;ay;bx;by_;cx;cy;x;y] =>
+      Some [z2f (tri_winding_pinned (mkTriangle (mkPoint ax ay) (mkPoint bx by_) (mkPoint cx cy)) (mkPoint x y))]
   | _, _ => None
   end.
 
 Definition tol (op : Z) : option float :=
   match op with
-  | 6 | 9 | 10 | 15 | 18 => Some 0x1.12e0be826d695p-30%float   (* 1e-9 *)
+  | 6 | 106 | 9 | 10 | 15 | 18 => Some 0x1.12e0be826d695p-30%float   (* 1e-9 *)
   | _ => None
   end.
 
